@@ -70,10 +70,14 @@ def kwargs_fwd(ctx: Ctx) -> List[Ob]:
     for w in m.all_funcs():
         if w.parent is not None:
             continue
-        wparams = [p for p in w.param_names() if p != w.self_name]
+        wparams = [p for p in w.param_names() if p != w.self_name and p not in ("cls",)]
         if len(wparams) < 1:
             continue
+        # pass 1: the delegating calls of w
+        wcalls = []
         for holder, call in _all_calls(ctx, w):
+            if any(isinstance(a, ast.Starred) for a in call.args) or any(k.arg is None for k in call.keywords):
+                continue
             for g, recv in env.callees(holder, call):
                 if g.name == "__init__" and g.cls and not m.is_family(g.cls, "Tree"):
                     continue
@@ -84,30 +88,48 @@ def kwargs_fwd(ctx: Ctx) -> List[Ob]:
                         shared.append((p, p))
                     elif RENAME.get(p) in gparams and p not in gparams:
                         shared.append((p, RENAME[p]))
-                if len(shared) < 2:
-                    continue
-                if any(isinstance(a, ast.Starred) for a in call.args) or any(k.arg is None for k in call.keywords):
-                    continue
-                bound = recv is not None or g.name == "__init__" or g.kind == "classmethod"
-                props = _prop_for_wrapper(w)
-                for p, gp in shared:
-                    a = env._actual_for(g, call, gp, bound=bound)
-                    label = f"{w.qualname} -> {norm(call.func)}(): {p}"
-                    if isinstance(a, ast.Name) and a.id == p:
-                        obs.append(ctx.ob("KWARGS-FWD", props, w, label, call, True))
-                    elif a is None:
-                        ok = _loads_outside(w, call, p)
-                        obs.append(ctx.ob("KWARGS-FWD", props, w, label, call, ok,
-                                          "" if ok else f"parameter `{p}` is accepted but neither forwarded to {g.qualname}({gp}=) nor used: "
-                                          "the caller's option is silently ignored"))
-                    elif isinstance(a, ast.Name) and a.id in wparams and a.id != p:
-                        obs.append(ctx.ob("KWARGS-FWD", props, w, label, call, False,
-                                          f"{g.qualname}({gp}=) receives `{a.id}` instead of `{p}` (crossed arguments)"))
-                    else:
-                        mentions = any(isinstance(x, ast.Name) and x.id == p for x in ast.walk(a))
-                        ok = mentions or _loads_outside(w, call, p)
-                        obs.append(ctx.ob("KWARGS-FWD", props, w, label, call, ok,
-                                          "" if ok else f"{g.qualname}({gp}=) always receives `{norm(a)}`; parameter `{p}` is ignored"))
+                subset = len(shared) == len(wparams) and len(shared) >= 1 and w.name not in ("__init__",)
+                if len(shared) >= 2 or subset:
+                    wcalls.append((holder, call, g, recv, shared))
+        if not wcalls:
+            continue
+        inside = set()
+        for _h, call, g_, recv_, shared_ in wcalls:
+            b_ = recv_ is not None or g_.name == "__init__" or g_.kind == "classmethod"
+            for _p, gp_ in shared_:
+                a_ = env._actual_for(g_, call, gp_, bound=b_)
+                if a_ is not None:
+                    inside |= {id(x) for x in ast.walk(a_)}
+
+        def consumed(pname: str) -> bool:
+            """the parameter is used by w's own logic (anywhere but as an
+            argument of one of its delegating calls)"""
+            for x in ast.walk(w.node):
+                if isinstance(x, ast.Name) and x.id == pname and isinstance(x.ctx, ast.Load) and id(x) not in inside:
+                    return True
+            return False
+
+        props = _prop_for_wrapper(w)
+        for holder, call, g, recv, shared in wcalls:
+            bound = recv is not None or g.name == "__init__" or g.kind == "classmethod"
+            for p, gp in shared:
+                a = env._actual_for(g, call, gp, bound=bound)
+                label = f"{w.qualname} -> {norm(call.func)}(): {p}"
+                if isinstance(a, ast.Name) and a.id == p:
+                    obs.append(ctx.ob("KWARGS-FWD", props, w, label, call, True))
+                elif a is None:
+                    ok = consumed(p)
+                    obs.append(ctx.ob("KWARGS-FWD", props, w, label, call, ok,
+                                      "" if ok else f"parameter `{p}` is accepted but not forwarded to {g.qualname}({gp}=) at this call "
+                                      "and not used otherwise: the caller's option is silently ignored"))
+                elif isinstance(a, ast.Name) and a.id in wparams and a.id != p:
+                    obs.append(ctx.ob("KWARGS-FWD", props, w, label, call, False,
+                                      f"{g.qualname}({gp}=) receives `{a.id}` instead of `{p}` (crossed arguments)"))
+                else:
+                    mentions = any(isinstance(x, ast.Name) and x.id == p for x in ast.walk(a))
+                    ok = mentions or consumed(p)
+                    obs.append(ctx.ob("KWARGS-FWD", props, w, label, call, ok,
+                                      "" if ok else f"{g.qualname}({gp}=) always receives `{norm(a)}`; parameter `{p}` is ignored"))
     return obs
 
 
